@@ -272,6 +272,29 @@ def d3b_every_dequeued_datagram_is_processed(ctx):
             ctx.chk.ob("D3", "%s: every datagram taken from the reader queue is handed to handle_uplink_packet" % sname(f.stable), ok, det,
                        key="D3:dequeued-is-processed:%s" % f.stable, loc=rt.get("loc"))
     ctx.chk.floor("D3", "try_recv sites on the uplink packet queue", n, 1)
+    # the event loop's own receive arm: `if let Some(packet) = packet_rx.recv().await { handle_uplink_packet(packet, ..) }`
+    m = 0
+    for f in ctx.w.fns.values():
+        if not (f.stable.startswith("srtla_send::sender::run_sender_with_config") and f.kind == "coroutine" and calls_to(f, stable=HU)):
+            continue
+        cfg = ctx.cfg(f)
+        hs = set(bb for (bb, t) in calls_to(f, stable=HU))
+        for bi, blk in enumerate(f.blocks):
+            if blk["cleanup"]:
+                continue
+            for st in blk["stmts"]:
+                if st["k"] == "assign" and st["rv"]["k"] == "discr" and (st["rv"].get("pty") or "").replace(" ", "").endswith("Option<sender::uplink::UplinkPacket>"):
+                    t = blk["term"]
+                    if t["k"] != "switch":
+                        continue
+                    m += 1
+                    some = [tgt for (val, tgt) in t["targets"] if val == 1] or [t["otherwise"]]
+                    okb = some[0]
+                    heads = [h for h in cfg.loop_heads() if bi in cfg.loop_body(h)]
+                    lost = any(cfg.can_reach(okb, h, avoid=hs) for h in heads) or [r for r in cfg.returns if cfg.can_reach(okb, r, avoid=hs)]
+                    ctx.chk.ob("D3", "the event loop hands every datagram it receives from the reader queue to handle_uplink_packet", not lost, "", key="D3:received-is-processed",
+                               loc=st.get("loc"))
+    ctx.chk.floor("D3", "receive arms of the event loop on the uplink packet queue", m, 1)
 
 
 RULES = [d1_exact_dispatch, d2_identity, d3_delivery, d3b_every_dequeued_datagram_is_processed, d4_stamps]
